@@ -135,6 +135,8 @@ class CircWorld(StateWorld):
     def _probe(self, rng):
         n = self.n
         t = rng.choice(["pauli", "list", "list", "map", "state", "state"] + (["poly", "mono"] if self.S.name == "numpy" else []))
+        if n > 12 and t in ("map", "state"):
+            t = "list"     # wide registers (qubit indices beyond 64): operators only, no whole-group model
         if t == "mono":
             return {"ptype": "mono", "item": rm.pstr((rm.rand_letters(rng, n, False), rng.randrange(4))),
                     "c": [rng.choice([1.0, -0.5, 2.0]), rng.choice([0.0, 1.5])]}
